@@ -83,7 +83,8 @@ Theorem C11_alloc_no_collision :
   forall O ops s, s_no_renumber ops -> sprog_dom O s ops -> NoDup (map fst (s_handed_out O s ops)).
 Proof. exact s_alloc_no_collision. Qed.
 
-(* add_bookmark touches nothing but the bookmark fields; save touches no object and never lowers the cursor *)
+(* add_bookmark touches nothing but the bookmark fields; save touches no object, never lowers the cursor and (since
+   /repo 19ab1a6 raises max_id to the largest object number first) leaves the allocation invariant TRUE whatever it was *)
 Theorem C11_frame_add_bookmark :
   forall O s t f c p par s' r, sstep O s (SAddBookmark t f c p par) = (s', r) ->
     Outline.base s' = Outline.base s /\ r = ONum (Outline.max_bookmark_id s + 1)%N /\
@@ -92,7 +93,7 @@ Proof. exact frame_add_bookmark. Qed.
 
 Theorem C11_frame_save :
   forall stream d, let d' := fst (save_effect stream d) in
-    d_objects d' = d_objects d /\ (d_max_id d <= d_max_id d')%N.
+    d_objects d' = d_objects d /\ (d_max_id d <= d_max_id d')%N /\ alloc_ok d'.
 Proof. exact frame_save. Qed.
 
 (* ------------------------------------------------------------------------------------------ *)
